@@ -18,8 +18,8 @@
 From Coq Require Import List NArith Bool String Permutation.
 From JV.lib Require Import Bytes.
 From JV.gen Require Import DirectiveTables TagName.
-From JV.model Require Import ScannerSem Core TagTitle Catalog.
-From JV.proofs Require Import CatalogProofs FaithfulProofs LocalityProofs OrderProofs FrameProofs InsertProofs FaithfulExamples LocalityExamples.
+From JV.model Require Import ScannerSem Core PathParams TagTitle Catalog.
+From JV.proofs Require Import CatalogProofs FaithfulProofs LocalityProofs OrderProofs PathVarProofs FrameProofs InsertProofs TagFrameProofs TagInsertProofs FaithfulExamples LocalityExamples.
 From JV.model Require AllOf.
 From JV.spec Require AllOfSpec MacroSpec.
 From JV.proofs Require AllOfProofs MacroProofs.
@@ -156,3 +156,50 @@ Theorem enum_moved_partial : forall pp bt banned first a t b1 b2 c,
     c_info c' = c_info c /\ c_jsight c' = c_jsight c.
 Proof. exact enum_moved_lemma. Qed.
 Print Assumptions enum_moved_partial.
+
+(* an unused TAG declaration moved (from C20 tag_inserted; tag_step_ok: nothing uses the name) *)
+Theorem tag_moved_partial : forall pp bt banned first a t b1 b2 c,
+  tree_kids t = [] -> tag_node t = true -> kind_in KTAG banned = false ->
+  let n := named (tree_dir t) (bs "TagName") in
+  (forall p, In p (positions_all ((first :: a) ++ b1 ++ b2)) -> tag_step_ok n (fst p) (snd p)) ->
+  build pp bt banned ((first :: a) ++ t :: b1 ++ b2) = COk c ->
+  exists c', build pp bt banned ((first :: a ++ b1) ++ t :: b2) = COk c' /\
+    Permutation (c_tags c) (c_tags c') /\
+    c_servers c' = c_servers c /\ c_types c' = c_types c /\ c_enums c' = c_enums c /\ c_inters c' = c_inters c /\
+    c_info c' = c_info c /\ c_jsight c' = c_jsight c.
+Proof. exact tag_moved_lemma. Qed.
+Print Assumptions tag_moved_partial.
+
+(* ======================================================================================= *)
+(* ingredients for swapping trees that make interactions (proofs/PathVarProofs.v).
+   NOT PROVED: inter_trees_swapped_partial itself (build (a ++ t1 :: t2 :: b) vs build (a ++ t2 :: t1 :: b) under
+   a disjointness hypothesis).  What is there: the path-variable stage and the similar-path state are order
+   independent (below); the run-wide sets b_urls / b_protocols are only tested for membership.  What is missing:
+   the two-sided simulation of the steps of t2 over a state that already holds t1's interactions and automatic
+   tags (the analogue of C20 step_srel / step_grel for the interaction collection: om_get / om_update at the
+   ids of t2 are unaffected by entries with other ids; tags_for over a tag collection with other automatic
+   tags appended - TagInsertProofs.tags_for_ins is the one-entry version), and that a successful
+   check_similar_paths pair can be swapped (sp_lookup_after gives the lookups of the state after a check). *)
+
+(* when the binding of path variables succeeds, and with what (pv_bound v = the (prefix, name) pairs the Path
+   directive v binds, pv_left v = its properties that no parameter takes) *)
+Theorem bind_all_verdict : forall pvs all all',
+  bind_all pvs all = COk all' <->
+  (forall v, In v pvs -> pv_left v = []) /\ NoDup (map fst (bounds pvs)) /\
+  (forall x, In x (map fst (bounds pvs)) -> ~ In x (map fst all)) /\ all' = all ++ bounds pvs.
+Proof. exact bind_all_ok. Qed.
+Print Assumptions bind_all_verdict.
+
+(* the 'has already been defined earlier' check is symmetric, and path_vars_of only tests membership *)
+Theorem bind_all_order_free : forall pvs pvs' all,
+  Permutation pvs pvs' -> bind_all pvs [] = COk all ->
+  exists all', bind_all pvs' [] = COk all' /\ Permutation all all' /\
+               forall p, path_vars_of all p = path_vars_of all' p.
+Proof. exact bind_all_order_free_lemma. Qed.
+Print Assumptions bind_all_order_free.
+
+(* the similar-path check sees the run-wide state only through its lookups (sp_equiv: same binding for every key) *)
+Theorem similar_paths_state_order_free : forall pp st st',
+  sp_equiv st st' -> sp_sim (check_similar_paths st pp) (check_similar_paths st' pp).
+Proof. exact check_similar_paths_equiv. Qed.
+Print Assumptions similar_paths_state_order_free.
